@@ -277,6 +277,10 @@ def _relabels(keys):
         ("relabel(lambda k: k + k)", lambda d: d.relabel(dbl), lambda k: k + k, 'callable'),
         ("relabel(upper, b='other')", lambda d: d.relabel(up, b='other'), lambda k: 'other' if k == 'b' else k.upper(), 'callable+kwargs'),
         ("relabel({'a': 'x'})", lambda d: d.relabel({'a': 'x'}), lambda k: {'a': 'x'}.get(k, k), 'dict'),
+        # the empty string is a legal (if falsy) new name
+        ("relabel(a='')", lambda d: d.relabel(a=''), lambda k: {'a': ''}.get(k, k), 'kwargs-empty-name'),
+        ("relabel({'b': ''})", lambda d: d.relabel({'b': ''}), lambda k: {'b': ''}.get(k, k), 'dict-empty-name'),
+        ("relabel(lambda k: '' if k == 'a' else k)", lambda d: d.relabel(lambda k: '' if k == 'a' else k), lambda k: '' if k == 'a' else k, 'callable-empty-name'),
     ]
     if len(keys) >= 2:
         new = ['N%d' % i for i in range(len(keys))]
